@@ -691,8 +691,9 @@ fn adversarial_mint(rng: &mut Rng, sp: &WlSpec, i: usize, who: &str, amt: u128) 
     let me = sp.stages[i].members.iter().find(|m| m.0 == who).map(|m| m.1);
     let mk_al = |n: u32| if n > 0 { Some(n) } else { None };
     if !is_merkle(&sp.kind) {
-        return match rng.below(4) {
+        return match rng.below(5) {
             0 => mintm(who, amt, None, None, Some(5)),
+            4 => mintm(who, amt, Some(u32::MAX), None, Some(*rng.pick(&[0u32, 1, 29, 30, 31, 49, 50, 51, u32::MAX - 1, u32::MAX]))),
             1 => mintm(who, amt, Some(rng.below(3) as u32), None, Some(rng.range(2, 30) as u32)),
             2 => mintm(who, amt, None, Some(junk_proof(false)), Some(5)),
             _ => mintm(who, amt, Some(1), Some(vec![]), Some(7)),
@@ -726,8 +727,18 @@ fn adversarial_mint(rng: &mut Rng, sp: &WlSpec, i: usize, who: &str, amt: u128) 
             let al = me.and_then(mk_al);
             mintm(who, amt, if tiered { None } else { Some(0) }, tree.proof(&leaf(st, who, al)), al)
         }
-        // empty / junk proof with a big allocation
-        5 => mintm(who, amt, st, Some(if rng.chance(1, 2) { vec![] } else { junk_proof(tiered) }), Some(9)),
+        // empty / junk / malformed proof with a big allocation
+        5 => mintm(
+            who,
+            amt,
+            st,
+            Some(match rng.below(3) {
+                0 => vec![],
+                1 => junk_proof(tiered),
+                _ => vec!["zz-not-hex".to_string()],
+            }),
+            Some(*rng.pick(&[0u32, 9, 50, 51, u32::MAX])),
+        ),
         // own proof, allocation dropped
         _ => {
             let al = me.and_then(mk_al);
@@ -1029,7 +1040,7 @@ fn probe_plans() -> Vec<(String, Plan)> {
                     pal: if var.flex { 3 } else { 1 + (variant as u32 + k + 1) % 3 },
                     num_tokens: 30,
                     use_init: false,
-                    swap: false,
+                    swap: k % 2 == 0,
                     contiguous: variant % 2 == 0,
                     noise: false,
                     second_wl: false,
@@ -1221,6 +1232,43 @@ fn incompatible_cases() -> Vec<Case> {
     v
 }
 
+/// smallest prefix that still shows a violation with the same key, then one greedy pass dropping single ops
+fn shrink(c: &Case, key: &str) -> Case {
+    let shows = |ops: &[COp]| -> bool {
+        let mut t = c.clone();
+        t.ops = ops.to_vec();
+        run_case(&t).violations.iter().any(|v| v.0 == key)
+    };
+    let (mut lo, mut hi) = (0usize, c.ops.len());
+    if !shows(&c.ops) {
+        return c.clone();
+    }
+    while lo < hi {
+        let mid = (lo + hi) / 2;
+        if shows(&c.ops[..mid]) {
+            hi = mid;
+        } else {
+            lo = mid + 1;
+        }
+    }
+    let mut ops: Vec<COp> = c.ops[..hi].to_vec();
+    let mut i = ops.len();
+    let mut budget = 120;
+    while i > 0 && budget > 0 {
+        i -= 1;
+        budget -= 1;
+        let mut t = ops.clone();
+        t.remove(i);
+        if shows(&t) {
+            ops = t;
+        }
+    }
+    let mut out = c.clone();
+    out.ops = ops;
+    out.tag = format!("{} (shrunk)", c.tag);
+    out
+}
+
 fn all_cases(a: &Args) -> Vec<Case> {
     let mut rng = Rng::new(a.seed);
     let mut v = corpus();
@@ -1269,9 +1317,10 @@ pub fn run(a: &Args) {
         for (key, what) in r.violations.iter().take(3) {
             nviol += 1;
             if nviol <= 20 {
+                let small = if nviol <= 3 && a.replay.is_none() { shrink(c, key) } else { c.clone() };
                 let body = format!(
                     "{{\n \"property\": \"C03\",\n \"case\": {},\n \"violation\": {}\n}}\n",
-                    serde_json::to_string(c).unwrap(),
+                    serde_json::to_string(&small).unwrap(),
                     serde_json::to_string(what).unwrap()
                 );
                 let path = out.write_replay(&format!("C03-{}.json", nviol), &body);
